@@ -28,16 +28,17 @@ BUDGET_S = {'quick': 90, 'thorough': 900}
 CASE_TIMEOUT_S = 600
 STUBS = []
 PROBES = ['shuffle', 'reverse', 'seed_none', 'low_complexity', 'collision_retry_exhausted', 'hashseed_pair',
-          'callvariant_targets', 'enzyme', 'non_shuffle_pattern', 'suffix', 'target_first', 'decoy_first']
-RULE = ('case = target FASTA with unique sequences (random peptides incl. low-complexity ones that force shuffle '
-        'collisions, or the FASTA of a simulated callVariant run) x option set (method, enzyme, keep N/C-term, '
+          'callvariant_targets', 'il_twin_targets', 'duplicate_sequences', 'enzyme', 'non_shuffle_pattern', 'suffix', 'target_first', 'decoy_first']
+RULE = ('case = target FASTA (random peptides incl. low-complexity ones that force shuffle collisions, I/L twin '
+        'pairs, sometimes one sequence under several headers, or the FASTA of a simulated callVariant run) x option set (method, enzyme, keep N/C-term, '
         'non-shuffle pattern, order, decoy string position, max attempts, seed); executions: two prior global-RNG '
         'states, a permuted arrival order, and for a quarter of the cases a fresh interpreter under another '
         'PYTHONHASHSEED.  distinct = distinct (method, enzyme, pattern, order, position, seed is None, #targets '
         'bucket) option signatures')
 ASSUMPTIONS = [
-    'inputs have unique sequences (what the callers emit); duplicated target sequences make one-decoy-per-target '
-    'order independence ill-defined',
+    'most inputs have unique sequences (what the callers emit); on the 15 % of inputs with the same sequence under '
+    'several headers only the per-record clauses are judged (which of two equal sequences gets which draw is not '
+    'promised, so record-set order independence is ill-defined there)',
     'fixed positions are monitored for the peptide termini and the listed residues only; the residues at the '
     "enzyme's cleavage sites need a digestion oracle (pure-input clause, not decided here)",
 ]
@@ -67,8 +68,19 @@ def gen_targets(rng):
         else:
             s = ''.join(rng.choice(AA) for _ in range(L))
         peps.add(s)
+    # I/L twins: what an I>L (or L>I) SNV produces -- two distinct targets that differ only by I/L
+    if rng.random() < 0.35:
+        for s in sorted(peps):
+            if ('I' in s or 'L' in s) and rng.random() < 0.5:
+                i = rng.choice([k for k, c in enumerate(s) if c in 'IL'])
+                peps.add(s[:i] + ('L' if s[i] == 'I' else 'I') + s[i + 1:])
     peps = sorted(peps)
     rng.shuffle(peps)
+    # the same sequence under several headers (legal FASTA, e.g. a proteome with identical paralogs): only the
+    # per-record clauses are judged on such inputs (the caller checks ``dups``)
+    if rng.random() < 0.15:
+        peps += [rng.choice(peps) for _ in range(rng.randint(1, 3))]
+        rng.shuffle(peps)
     return [(f'T{j}|ENST{rng.randint(1, 99)}|SNV-{rng.randint(1, 999)}-A-T|{j}', s) for j, s in enumerate(peps)], low
 
 
@@ -209,7 +221,16 @@ def judge(targets, opts, wd, priors, perm, hash_other=None):
         out.append(('reproducible-rng', 'reproducible-rng', {'priors': priors, 'second': b.get('exc')}))
     permuted = [targets[i] for i in perm]
     c = run_decoy(permuted, opts, wd, 'c', priors[0])
-    if not c['ok']:
+    dups = len({s for _, s in targets}) < len(targets)
+    if dups:
+        # duplicated sequences: which of two equal sequences gets which draw is not promised, so only the
+        # per-record clauses are judged on the permuted run
+        if c['ok']:
+            for sig, detail in structure(permuted, opts, c['bytes']):
+                out.append((sig.split(':')[0] + ':' + sig.split(':')[1], sig, dict(detail, permuted=True)))
+        else:
+            out.append(('order-independent', 'order-independent:raised', {'exc': c['exc']}))
+    elif not c['ok']:
         out.append(('order-independent', 'order-independent:raised', {'exc': c['exc']}))
     else:
         ra, rc = parse_out(a['bytes']), parse_out(c['bytes'])
@@ -279,6 +300,11 @@ def run_case(seed, task, tier):
         probes['seed_none'] = 1
     if low:
         probes['low_complexity'] = 1
+    seqs = [s for _, s in targets]
+    if len(set(seqs)) < len(seqs):
+        probes['duplicate_sequences'] = 1
+    if len({s.replace('I', 'L') for s in set(seqs)}) < len(set(seqs)):
+        probes['il_twin_targets'] = 1
     if hash_other is not None:
         probes['hashseed_pair'] = 1
     if opts['enzyme']:
